@@ -20,6 +20,7 @@ import (
 	_ "github.com/klev-dev/klevdb/internal/zzverif/h_helpers"
 	_ "github.com/klev-dev/klevdb/internal/zzverif/h_locks"
 	_ "github.com/klev-dev/klevdb/internal/zzverif/h_backup"
+	_ "github.com/klev-dev/klevdb/internal/zzverif/h_crash"
 	"github.com/klev-dev/klevdb/internal/zzverif/vrt"
 )
 
